@@ -199,6 +199,23 @@ def _table_integrity(_):
                 validate.tree(witness.build(sp))
             except Exception:  # noqa
                 refused += 1
+    def _lists(spec_):
+        if isinstance(spec_, list):
+            yield spec_
+            for x_ in spec_:
+                yield from _lists(x_)
+    for rn in sorted(tab):
+        try:
+            live = mrule.Rule(rn).children
+            for lst_ in list(_lists(live)):
+                for helper in ("child_list_node_names", "child_list_min_occurrences", "child_list_max_occurrences"):
+                    for _twice in (0, 1):
+                        try:
+                            getattr(mrule.Rule, helper)(lst_)
+                        except Exception:  # noqa
+                            pass
+        except Exception:  # noqa
+            pass
     for rn in sorted(tab):
         node, direct = ruleinfo.parent_for(rn)
         ra = ruleinfo.automata(rn)
